@@ -5,11 +5,16 @@ N=$1
 cd /verif
 echo "== verif: merging w$N"
 if ! git merge --no-edit w$N; then
-  # evidence files are rewritten by every run: take the branch's copy; anything else is a real conflict
+  # evidence files are rewritten by every run: take the branch's copy; Cargo.lock is re-resolved by cargo;
+  # anything else is a real conflict
   for f in $(git diff --name-only --diff-filter=U); do
-    case "$f" in evidence/*) git checkout --theirs "$f" && git add "$f";; *) echo "MERGE CONFLICT in /verif: $f"; exit 1;; esac
+    case "$f" in
+      evidence/*) git checkout --theirs "$f" && git add "$f" ;;
+      harness/Cargo.lock) git checkout --ours "$f" && git add "$f" ;;
+      *) echo "MERGE CONFLICT in /verif: $f"; exit 1 ;;
+    esac
   done
-  git commit -qm "merge w$N (evidence conflicts resolved to the branch's copy)"
+  git commit -qm "merge w$N (evidence: branch copy; Cargo.lock: ours, re-resolved by cargo)"
 fi
 echo "== repo: cherry-picking w$N commits"
 cd /repo
